@@ -29,6 +29,18 @@ GETTERS = {"si": "GSi", "displayvalue": "GDisplayValue", "unit": "GUnit", "str":
            "sisig": "GSisig", "asSI": "GAsSI"}
 
 
+def slug(s: str) -> str:
+    """signature-safe spelling of a unit name (signatures become file names)"""
+    import re
+    return re.sub(r"[^A-Za-z0-9_.:+-]", lambda m: "_" if m.group(0) in "/ " else "x%02X" % (ord(m.group(0)) & 0xFFFF), s)
+
+
+class SafeRun(C.Run):
+    """Run whose violation signatures are made file-name safe (they become part of the replay path)."""
+    def violation(self, signature, what, replay, found_input=True):
+        return super().violation(slug(signature), what, replay, found_input)
+
+
 # ------------------------------------------------------------------ translator
 def regen() -> dict:
     """Run the translator on VERIF_REPO's tree (under the build lock, because it may rewrite
@@ -66,8 +78,22 @@ class Ctx:
         self.classes = [getattr(U, n) for n in self.names]
         self.by_type = {c: i for i, c in enumerate(self.classes)}
 
+        self.unit_const = {}
+        for ci, c in enumerate(dump["classes"]):
+            for j, (u, _) in enumerate(c["units"]):
+                if isinstance(u, str) and (ci, u) not in self.unit_const:
+                    try:
+                        u.encode("utf-8")
+                    except UnicodeEncodeError:
+                        continue
+                    self.unit_const[(ci, u)] = f"c{ci}_u{j}"
+
     def units_of(self, name):
         return [u for u, _ in self.dump["classes"][self.index[name]]["units"] if isinstance(u, str)]
+
+    def cunit(self, ci: int, unit: str) -> str:
+        """Coq term for a unit string: the named constant of Gen_Tables.v when the unit is declared"""
+        return self.unit_const.get((ci, unit)) or C.cstr(unit)
 
 
 # ------------------------------------------------------------------ harness-side SI text (independent of the code)
@@ -270,8 +296,18 @@ Definition rz (e : exn) : R float_ops := Raise e.
 """
 
 
+_SIG_DEFS: dict = {}          # signature -> constant name, per emitted shard (see run_correspondence)
+
+
 def csig(sig) -> str:
-    return "[" + ";".join(C.cz(int(e)) for e in sig) + "]"
+    key = tuple(int(e) for e in sig)
+    if key not in _SIG_DEFS:
+        _SIG_DEFS[key] = f"sg{len(_SIG_DEFS)}"
+    return _SIG_DEFS[key]
+
+
+def csig_literal(key) -> str:
+    return "[" + ";".join(C.cz(e) for e in key) + "]"
 
 
 def cflt(h: str) -> str:
@@ -281,7 +317,8 @@ def cflt(h: str) -> str:
 def coq_value(ctx: Ctx, vj) -> str | None:
     t = vj["t"]
     if t == "q":
-        return f"(nm {ctx.index[vj['cls']]} {cflt(vj['si'])} {C.cstr(vj['unit'])})"
+        ci = ctx.index[vj['cls']]
+        return f"(nm k{ci} {cflt(vj['si'])} {ctx.cunit(ci, vj['unit'])})"
     if t == "si":
         return f"(vsi {csig(vj['sig'])} {cflt(vj['si'])})"
     if t == "num":
@@ -326,8 +363,9 @@ def coq_call(ctx: Ctx, spec, opsj) -> str | None:
     if k == "mk":
         v = spec["v"]
         cv = "vs" if v["t"] == "str" else f"(vn {cflt(fhex(unhex(v['v'])))})"
-        u = "None" if spec["unit"] is None else f"(Some {C.cstr(spec['unit'])})"
-        return f"CMk {ctx.index[spec['cls']]} {cv} {u}"
+        ci = ctx.index[spec['cls']]
+        u = "None" if spec["unit"] is None else f"(Some {ctx.cunit(ci, spec['unit'])})"
+        return f"CMk k{ci} {cv} {u}"
     if k == "mksi":
         v = spec["v"]
         cv = "vs" if v["t"] == "str" else f"(vn {cflt(fhex(unhex(v['v'])))})"
@@ -335,9 +373,9 @@ def coq_call(ctx: Ctx, spec, opsj) -> str | None:
     if k == "get":
         return f"CGet {GETTERS[spec['g']]} {vals[0]}"
     if k == "as_unit":
-        return f"CAsUnit {vals[0]} {C.cstr(spec['unit'])}"
+        return f"CAsUnit {vals[0]} {ctx.cunit(ctx.index[opsj[0]['cls']], spec['unit']) if opsj and opsj[0].get('t') == 'q' else C.cstr(spec['unit'])}"
     if k == "as_quantity":
-        t = "None" if spec["target"] is None else f"(Some {ctx.index[spec['target']]})"
+        t = "None" if spec["target"] is None else f"(Some k{ctx.index[spec['target']]})"
         return f"CAsQuantity {vals[0]} {t}"
     if k == "siunit":
         return f"CSiunit {vals[0]} {C.cbool(spec['div'])} {C.cstr(spec['hat'])} {C.cstr(spec['dot'])}"
@@ -353,36 +391,25 @@ def run_correspondence(run: C.Run, ctx: Ctx, cases, shard: int = 500):
     indices, error text or None)."""
     d = C.scratch_dir(run.pid)
     files = []
-    spans = []
-    cur = []
-    cur_size = 0
-    start = 0
-    items = []
+    # shard by count; each shard is rendered on its own so that the signature constants it uses
+    # (Definition sgN := [...]) are defined in it
+    representable = []
+    unrepresentable = []
     for i, cs in enumerate(cases):
-        call = coq_call(ctx, cs["spec"], cs["ops"])
-        if call is None or "setup_failed" in cs["out"]:
-            items.append(None)
+        if "setup_failed" in cs["out"] or any(coq_value(ctx, v) is None for v in cs["ops"]):
+            unrepresentable.append(i)
         else:
-            items.append(f"({call}, {coq_obs(ctx, cs['out'])})")
-    unrepresentable = [i for i, it in enumerate(items) if it is None]
-    idx = [i for i, it in enumerate(items) if it is not None]
-    # shard by count and by size
-    chunks = []
-    cur, size = [], 0
-    for i in idx:
-        cur.append(i)
-        size += len(items[i])
-        if len(cur) >= shard or size > 250_000:
-            chunks.append(cur)
-            cur, size = [], 0
-    if cur:
-        chunks.append(cur)
+            representable.append(i)
+    chunks = [representable[j:j + shard] for j in range(0, len(representable), shard)]
     for n, ch in enumerate(chunks):
+        _SIG_DEFS.clear()
+        body = ";\n".join(f"({coq_call(ctx, cases[i]['spec'], cases[i]['ops'])}, {coq_obs(ctx, cases[i]['out'])})" for i in ch)
+        defs = "".join(f"Definition {nm} : list Z := {csig_literal(key)}.\n" for key, nm in _SIG_DEFS.items())
         f = d / f"cases_{run.pid.lower()}_{n}.v"
-        body = ";\n".join(items[i] for i in ch)
-        f.write_text(PREAMBLE + "Definition cases : list (call float_ops * R float_ops) := [\n" + body + "\n].\n"
+        f.write_text(PREAMBLE + defs + "Definition cases : list (call float_ops * R float_ops) := [\n" + body + "\n].\n"
                      "Eval vm_compute in (mismatches_from float_ops gen_module 0 cases).\n")
         files.append(f)
+    _SIG_DEFS.clear()
     results = C.coqc_many(files)
     mism = list(unrepresentable)
     for ch, f, (rc, out) in zip(chunks, files, results):
